@@ -627,6 +627,9 @@ def s_cw(seed=0, k_max=3, full=False):
     clusters = {
         "1w": cluster([dict(GPU=1, RAM=2)]),
         "2w": cluster([dict(GPU=1, RAM=2), dict(GPU=1, RAM=2)]),
+        # room for one model only: with two models the policy has to evict one to load
+        # the other (only used with --scheduler_run_load)
+        "1w-tight": cluster([dict(GPU=1, RAM=1)]),
     }
     loadings = ("preload", "run_load", "none") if full else ("preload", "run_load")
     for k in range(1, k_max + 1):
@@ -650,7 +653,11 @@ def s_cw(seed=0, k_max=3, full=False):
                     for ck, cl in clusters.items():
                         if ck == "2w" and k == 1:
                             continue
+                        if ck == "1w-tight" and len(set(models)) < 2:
+                            continue
                         for ld in loadings:
+                            if ck == "1w-tight" and ld != "run_load":
+                                continue
                             for goal in ("clockwork", "least_slack"):
                                 fl = {"scheduler": "Clockwork", "clockwork_goal": goal,
                                       "unique_work_profiles": True}
